@@ -61,9 +61,27 @@ package at
 //@   loop 1 invariant index: rangeindex1 >= -1 && rangeindex1 + 1 <= len(pks)
 //@   loop 1 invariant fields-so-far: len(fields) == rangeindex1 + 1
 //@   nopanic
-//@ func (*selectForUpdateExecutor).buildLockKey
-//@   trusted
+// The key of the rows a locking read returns. A primary key that cannot be read (scanned) must not be
+// passed over: the rows are handed back only after the coordinator agreed to the key of EVERY one of
+// them, so an unreadable row makes the key - and with it the statement - fail. How a key value is
+// rendered (reflection over the scan destinations) is the environment here.
+//@ ghost var scan_failed bool
+//@ ext (*seata.apache.org/seata-go/pkg/datasource/sql/util.ScanRows).Scan
+//@   modifies ghost.scan_failed
+//@   ensures (result != nil && result != io.EOF ==> ghost.scan_failed) && (result == nil || result == io.EOF ==> ghost.scan_failed == old(ghost.scan_failed))
+//@ ext (*seata.apache.org/seata-go/pkg/datasource/sql/util.ScanRows).Next
 //@   ensures true
+//@ ext seata.apache.org/seata-go/pkg/datasource/sql/util.NewScanRows
+//@   ensures result != nil
+//@ func (*selectForUpdateExecutor).buildLockKey
+//@   prop C03
+//@   requires s != nil && meta != nil
+//@   let sf0 := ghost.scan_failed
+//@   modifies ghost.scan_failed
+//@   loop 1 invariant every-row-so-far-was-read: ghost.scan_failed == sf0
+//@   loop 2 invariant every-row-so-far-was-read: ghost.scan_failed == sf0
+//@   ensures a-row-that-cannot-be-read-yields-no-key: ghost.scan_failed && !sf0 ==> result == ""
+//@   may_panic
 // exec runs one statement on the target connection and hands the rows to the given function
 // (type switches over the driver's query interfaces: trusted; it calls f only on success)
 //@ ghost var stmts_run int
@@ -275,7 +293,7 @@ package at
 //@ func (*selectForUpdateExecutor).doExecContext
 //@   prop C03 C16
 //@   requires s != nil && s.execContext != nil && s.execContext.TxCtx != nil && s.execContext.Conn != nil && s.metaData != nil
-//@   modifies s.tx, s.savepointName, s.execContext.IsAutoCommit, ghost.sel_runs, ghost.lock_queries, ghost.lock_granted, ghost.dtx, ghost.stmts_run
+//@   modifies s.tx, s.savepointName, s.execContext.IsAutoCommit, ghost.sel_runs, ghost.lock_queries, ghost.lock_granted, ghost.dtx, ghost.stmts_run, ghost.scan_failed
 //@   ensures rows-only-after-the-coordinator-agreed: result1 == nil && result0 != nil ==> ghost.lock_queries == old(ghost.lock_queries) + 1 && ghost.lock_granted && ghost.sel_runs == old(ghost.sel_runs) + 1
 //@   ensures conflict-is-an-error: ghost.lock_queries == old(ghost.lock_queries) + 1 && !ghost.lock_granted ==> result1 != nil && result0 == nil
 //@   ensures conflict-is-recognisable: called("LockQuery#1") && callres("LockQuery#1", 1) == nil && !callres("LockQuery#1", 0) ==> result1 == lockConflictError
